@@ -108,8 +108,40 @@ def user_import_cases():
     yield "user-class-named-Callable", ["class Callable2(def v: Int)", "def h(f: Int -> Int) -> Int => f(1)", "print(h(\\x: Int => x))"], set()
 
 
+NEEDS = [  # support name, user import line, construct needing the support name (module level), the same inside a function
+    ("math", "import math", ["print(sqrt 4.0)"], ["def nf() -> Float => sqrt 4.0", "print(nf())"]),
+    ("Optional", "from typing import Optional", ["def nx: Int? := None"], ["def nf(np: Int?) => print(1)", "nf(None)"]),
+    ("Union", "from typing import Union", ["def nu: {Int, Str} := 1"], ["def nf(np: {Int, Str}) => print(1)", "nf(1)"]),
+    ("Tuple", "from typing import Tuple", ['def nt: (Int, Str) := (1, "a")'], ['def nf(np: (Int, Str)) => print(1)', 'nf((1, "a"))']),
+    ("Callable", "from typing import Callable", ["def nh(f: Int -> Int) -> Int => f(1)", "print(nh(\\x: Int => x))"], ["def nh(f: Int -> Int) -> Int => f(1)", "print(nh(\\x: Int => x))"]),
+    ("Any", "from typing import Any", ["def na: Any := 1"], ["def nf(np: Any) => print(1)", "nf(1)"]),
+    ("NewType", "from typing import NewType", ["type NPos: Int when self > 0"], ["type NPos: Int when self > 0"]),
+    ("ABC", "from abc import ABC", ["type NIn", "    def n(self) -> Int"], ["type NIn", "    def n(self) -> Int"]),
+    ("abstractmethod", "from abc import abstractmethod", ["type NIn", "    def n(self) -> Int"], ["type NIn", "    def n(self) -> Int"]),
+]
+
+
+def misplaced_user_imports():
+    """the user imports a support name himself, but not where it makes the generator's own import redundant: after the first
+    use, inside a function / method / branch (a scope the use is not in), or under an alias"""
+    for name, imp, top_use, fun_use in NEEDS:
+        for uname, use in (("use-top", top_use), ("use-in-function", fun_use)):
+            yield name, "import-first", uname, [imp] + use
+            yield name, "import-after-use", uname, use + [imp]
+            yield name, "import-in-uncalled-function", uname, ["def uif() =>", "    " + imp, "    print(0)"] + use
+            yield name, "import-in-called-function-after", uname, ["def uif() =>", "    " + imp, "    print(0)"] + use + ["uif()"]
+            yield name, "import-in-method", uname, ["class Uim", "    def m(self) =>", "        " + imp, "        print(0)"] + use
+            yield name, "import-in-branch-not-taken", uname, ["def uc := False", "if uc then", "    " + imp, "    print(0)"] + use
+            yield name, "import-in-loop-zero-times", uname, ["for ui in 0 .. 0 do", "    " + imp, "    print(0)"] + use
+            yield name, "import-aliased", uname, [imp + " as ualias"] + use
+
+
 def cases(tier, seed):
     n = 0
+    for name, where, uname, lines in misplaced_user_imports():
+        n += 1
+        yield {"id": "c16-%d" % n, "family": "c16.misplaced-user-import", "src": "\n".join(lines) + "\n", "allowed": [], "run": True, "user_written_imports": True,
+               "tags": ["support:" + name, "user-" + where, uname]}
     for tag, ty, val, pre in TYPES:
         for pos, lines in type_positions(tag, ty, val, pre):
             n += 1
@@ -205,6 +237,9 @@ def evaluate(case, drv):
         free -= set(case.get("allowed", []))
         if free:
             res["fail"].append({"family": fam, "kind": "unbound-global", "detail": "unbound global name(s) %s in the emitted module" % sorted(free), "tags": tags + ["free:" + f for f in sorted(free)], "observed": py[:700]})
+        if case.get("user_written_imports"):
+            # the user's own import statements of support names are reproduced where he wrote them: only name binding and execution are judged
+            imports, late, nested = [], [], []
         support_keys = [k for k in imports if (k[0] == "import" and k[1] == "math" and k[2] is None) or (k[0] in ("typing", "abc") and k[1] in SUPPORT)]
         dups = sorted({k for k in support_keys if support_keys.count(k) > 1})
         user = [tuple(l.split()) for l in case.get("user_imports", [])]
